@@ -758,6 +758,18 @@ impl G {
     /// batches of EQUAL size and case flag, whose printed order must not vary from call to call
     pub fn pure_shape_source(&mut self) -> J {
         let pat = |k: &str, a: &str| json!({"t":"pat","k":k,"ic":false,"a":cps(a)});
+        // 2: one or two regexes (the next case is the same rule with every case flag flipped: the same
+        // regex TEXT compiled with the other flag in the same process)
+        if self.r.chance(1, 3) {
+            let c = |ch: char| json!({"t":"c","c":ch as u32});
+            let bodies: Vec<Vec<J>> = vec![vec![c('a'), c('b'), json!({"t":"star"})], vec![json!({"t":"bol"}), c('A'), c('b')], vec![c('b'), json!({"t":"dot"}), c('a')]];
+            let n = 1 + self.r.below(2);
+            let vs: Vec<J> = (0..n).map(|i| json!({"t":"pat","k":"regex","ic":false,"a":bodies[(i + self.r.below(3)) % 3].clone()})).collect();
+            let v = if n == 1 { vs[0].clone() } else { json!({"t":"list","vs":vs}) };
+            let hay = ["abx", "ABx", "Abq", "aB", "bxa", "BXA", "q"];
+            self.own_docs = Some((0..5).map(|_| obj(vec![("f".into(), s_node(*self.r.pick(&hay)))])).collect());
+            return json!({"cond":{"t":"id","n":cps("A")},"ids":[[cps("A"),{"t":"map","es":[{"m":"none","c":0,"f":cps("f"),"v":v}]}]]});
+        }
         if self.r.chance(1, 2) {
             let n = 2 + self.r.below(2);
             let vs: Vec<J> = (0..n).map(|i| pat("contains", ["ab", "ba", "bb"][i])).collect();
@@ -865,7 +877,12 @@ impl G {
         if self.r.chance(1, 3) {
             es.push(json!({"m":"none","c":0,"f":cps("z"),"v":{"t":"pat","k":"any","ic":false,"a":[]}}));
         }
-        let ids = vec![json!([cps("A"), {"t":"map","es":[{"m":"none","c":0,"f":cps("p"),"v":{"t":"map","es":es}}]}])];
+        let mut top = vec![json!({"m":"none","c":0,"f":cps("p"),"v":{"t":"map","es":es}})];
+        // next to the block, sometimes a predicate `dotted.key: null` (the leaf is often absent)
+        if self.r.chance(1, 2) {
+            top.push(json!({"m":"none","c":0,"f":cps(*self.r.pick(&["s.t", "s.u", "p.w"])),"v":{"t":"null"}}));
+        }
+        let ids = vec![json!([cps("A"), {"t":"map","es":top}])];
         let cond = if !self.positive && self.r.chance(1, 2) { json!({"t":"not","e":{"t":"id","n":cps("A")}}) } else { json!({"t":"id","n":cps("A")}) };
         json!({"cond":cond,"ids":ids})
     }
@@ -2077,6 +2094,13 @@ pub fn gen_cases(topic: &str, seed: u64, n: usize, path: &str) -> Result<(), Str
                 }
                 _ => scalar(g),
             };
+            // a boolean under a cast key (`flt(k): true`, `int(k): false`, `str(k): true`) loads
+            if depth == 1 && g.r.chance(1, 10) {
+                let m = *g.r.pick(&["flt", "flt", "int", "str"]);
+                let b = json!({"t":"bool","b":g.r.chance(1, 2)});
+                let v = if g.r.chance(1, 3) { json!({"t":"list","vs":[b, {"t":"num","n":flt_node("1.5")}]}) } else { b };
+                return json!({"m":m,"c":0,"f":cps(field),"v":v});
+            }
             // the modifier: usually one that the value admits, so that about half of the rules load
             let m = if v["t"] == "list" { *g.r.pick(&["none", "none", "not", "int", "flt", "str", "all", "of", "all", "of"]) }
                     else if g.r.chance(1, 12) { *g.r.pick(&["all", "of"]) }
@@ -2100,7 +2124,11 @@ pub fn gen_cases(topic: &str, seed: u64, n: usize, path: &str) -> Result<(), Str
             }
             let cond = if nid == 1 { json!({"t":"id","n":cps("A")}) } else { json!({"t":*g.r.pick(&["and", "or"]),"l":{"t":"id","n":cps("A")},"r":{"t":"id","n":cps("B")}}) };
             let src = json!({"cond":cond,"ids":ids});
-            let docs: Vec<J> = (0..3).map(|_| g.doc_for(&src)).collect();
+            let mut docs: Vec<J> = (0..3).map(|_| g.doc_for(&src)).collect();
+            // whatever loads is evaluated on values of every kind under its keys
+            for v in [i_node("1"), f_node("1.5"), s_node("2"), json!({"t":"B","b":true}), json!({"t":"N"})] {
+                docs.push(obj(vec![("f".into(), v.clone()), ("g".into(), v.clone()), ("h".into(), v)]));
+            }
             let c = json!({"topic":"typ","oracle":false,"wt":false,"typed":true,"src":src,"docs":docs,
                            "plan":{"tri":false,"sws":[[], [true,true,true,true]]}});
             writeln!(w, "{}", c).map_err(|e| e.to_string())?;
@@ -2503,6 +2531,20 @@ pub fn gen_cases(topic: &str, seed: u64, n: usize, path: &str) -> Result<(), Str
                     vals.push(f_node("1.5"));
                 }
                 let docs: Vec<J> = vals.into_iter().map(|v| obj(vec![("f".into(), v)])).collect();
+                json!({"topic":"num","oracle":true,"wt":true,"src":src,"docs":docs,
+                       "plan":{"tri":true,"sws":[[], [true,true,true,true]]}})
+            }
+            // not(k) on ONE ordering comparison: true exactly when the comparison is false - also for a
+            // field that is present but not comparable (a text, a boolean, an array, NaN, the other kind)
+            "num" if mode == 6 => {
+                let float = g.r.chance(1, 3);
+                let cn = if float { flt_node("5.5") } else { int_node("5") };
+                let op = *g.r.pick(&["gt", "ge", "lt", "le"]);
+                let src = json!({"cond":{"t":"id","n":cps("A")},"ids":[[cps("A"),{"t":"map","es":[{"m":"not","c":0,"f":cps("f"),"v":{"t":"cmp","op":op,"n":cn}}]}]]});
+                let vals = vec![s_node("x"), s_node("7"), json!({"t":"B","b":true}), json!({"t":"A","vs":[i_node("7")]}), json!({"t":"N"}),
+                                json!({"t":"F","neg":false,"d":[],"fr":[],"sp":"nan"}), f_node("7.5"), i_node("7"), i_node("3"), f_node("3.5"), i_node("5")];
+                let mut docs: Vec<J> = vals.into_iter().map(|v| obj(vec![("f".into(), v)])).collect();
+                docs.push(obj(vec![]));
                 json!({"topic":"num","oracle":true,"wt":true,"src":src,"docs":docs,
                        "plan":{"tri":true,"sws":[[], [true,true,true,true]]}})
             }
